@@ -4,7 +4,10 @@
 package graphql
 
 import (
+	"context"
 	"strconv"
+
+	"github.com/samsarahq/thunder/reactive"
 
 	"github.com/samsarahq/thunder/internal/zzverif/nondet"
 )
@@ -22,7 +25,7 @@ func c01ItemSel(name string) *xNode {
 	case 3:
 		return xF("sub", xF("c"))
 	case 4:
-		return xF("sub", xAs("c2", xF("c")), xF("__typename"))
+		return xF("sub", xAs("c2", xF("c")), xAs("t", xF("__typename")))
 	case 5:
 		return xF("nums")
 	case 6:
@@ -30,7 +33,7 @@ func c01ItemSel(name string) *xNode {
 	case 7:
 		return xF("u", xF("__typename"), xOn("A", xF("x")))
 	case 8:
-		return xF("__typename")
+		return xAs("kind", xF("__typename"))
 	case 9:
 		return xOn("Item", xF("v"))
 	case 10:
@@ -129,7 +132,7 @@ func VerifC01ExecShapes() {
 	if nondet.Choice("one", 2) == 1 {
 		root.One = xMkItem("one", 9, false, nondet.Choice("one.u", 3), 1)
 	}
-	body := []*xNode{xF("sub", xF("c")), xF("nums"), xF("e"), xF("u", xF("__typename"), xOn("A", xF("x")), xOn("B", xF("y"), xF("__typename")))}
+	body := []*xNode{xF("sub", xF("c")), xF("nums"), xF("e"), xF("u", xF("__typename"), xOn("A", xF("x")), xOn("B", xF("y"), xAs("t", xF("__typename"))))}
 	nodes := []*xNode{xF("items", body...), xAs("first", xF("one", body...)), xF("n")}
 	c01Compare(sch, root, nodes, &xChoiceScheduler{width: 2, name: "sched"})
 }
@@ -184,4 +187,48 @@ func VerifC01ExecWitness() {
 	if res.err == nil && cfg.calls["Item.v"] == 2 {
 		nondet.Assert(false, "reachability")
 	}
+}
+
+// VerifC01ExecLive: execution under a reactive.Rerunner (as live queries run):
+// expensive fields are then memoised with reactive.Cache per (field, source
+// object, selection). The same source object is reached on two paths, where
+// the same field (same alias) carries different sub-selections; each path must
+// get its own answer.
+func VerifC01ExecLive() {
+	cfg := &xConfig{modes: map[string]int{}}
+	cfg.modes["Item.sub"] = nondet.Choice("mode.sub", xNumModes)
+	cfg.modes["Item.v"] = nondet.Choice("mode.v", xNumModes)
+	cfg.k = 2
+	sch := xBuildSchema(cfg)
+	root := xFixedRoot()
+	var second []*xNode
+	switch nondet.Choice("second", 3) {
+	case 0:
+		second = []*xNode{xF("sub", xAs("c2", xF("c"))), xF("v")}
+	case 1:
+		second = []*xNode{xF("sub", xF("c"), xAs("t", xF("__typename"))), xAs("v", xF("id"))}
+	case 2:
+		second = []*xNode{xF("sub", xF("__typename")), xF("v")}
+	}
+	nodes := []*xNode{
+		xAs("a", xF("one", xF("sub", xF("c")), xF("v"))),
+		xAs("b", xF("one", second...)),
+	}
+	q := &Query{Name: "q", Kind: "query", SelectionSet: xBuildSelectionSet(nodes)}
+	nondet.Assert(PrepareQuery(context.Background(), sch.gql, q.SelectionSet) == nil, "valid-query-accepted")
+	var val interface{}
+	var err error
+	runs := 0
+	rr := reactive.NewRerunner(context.Background(), func(ctx context.Context) (interface{}, error) {
+		runs++
+		val, err = NewExecutor(&xLIFOScheduler{}).Execute(ctx, sch.gql, root, q)
+		return nil, err
+	}, 0, false)
+	nondet.Quiesce()
+	rr.Stop()
+	nondet.Assert(runs == 1 && err == nil, "no-error")
+	var errs []xRefError
+	want := sch.xEval(sch.query, root, nodes, nil, &errs)
+	nondet.Assert(nondet.DeepEq(val, want), "result-equal")
+	nondet.Cover("live")
 }
